@@ -2949,8 +2949,9 @@ mod hk {
     impl Message<SelfBlock> for N {
         type Reply = Option<bool>;
         async fn handle(&mut self, m: SelfBlock, me: &ActorRef<Self>) -> Option<bool> {
+            let t0 = std::time::Instant::now();
             match me.blocking_ask(Ping, Some(std::time::Duration::from_millis(m.0))) {
-                Err(rsactor::Error::Timeout { .. }) => Some(true),
+                Err(rsactor::Error::Timeout { .. }) => Some(t0.elapsed() >= std::time::Duration::from_millis(m.0)),
                 Err(_) => Some(false),
                 Ok(_) => None,
             }
@@ -3006,7 +3007,7 @@ fn round_hookblocking(seed: u64, hb: &Heartbeat, tot: &Mutex<Tot>, prop: &str) {
                 match tokio::time::timeout(Duration::from_secs(15), front.ask(SelfBlock(20))).await {
                     Ok(Ok(Some(true))) => {}
                     other => {
-                        viol.push(format!("iteration {i}: a handler's blocking_ask(Some(20 ms)) to its own (busy) actor should return Timeout, got {other:?} (None = it was answered, Some(false) = another error)"));
+                        viol.push(format!("@C10 iteration {i}: a handler's blocking_ask(Some(20 ms)) to its own (busy) actor should return Timeout once 20 ms have passed, got {other:?} (None = it was answered, Some(false) = another error, or Timeout before the deadline)"));
                         break;
                     }
                 }
@@ -3044,8 +3045,19 @@ fn round_hookblocking(seed: u64, hb: &Heartbeat, tot: &Mutex<Tot>, prop: &str) {
         t.inconclusive.push(format!("hookblocking round {seed}: machine stalled"));
         return;
     }
+    *t.nontrivial.entry("C10".into()).or_default() += 1;
+    *t.obl.entry("C10.timeout_iff").or_default() += done / 5;
     for m in viol {
-        if prop == "all" || prop == "C17" || prop == "C18" {
+        // the timed self-ask is a timeout matter as well: Timeout iff the deadline passed first, other failures as themselves
+        let (c10, m) = match m.strip_prefix("@C10 ") {
+            Some(rest) => (true, rest.to_string()),
+            None => (false, m),
+        };
+        if prop == "C10" {
+            if c10 {
+                t.viol.push(("C10.timeout_iff".into(), format!("[hook-blocking] {m}"), seed, "hookblocking".into()));
+            }
+        } else if prop == "all" || prop == "C17" || prop == "C18" {
             t.viol.push(("C17.same_rules".into(), format!("[hook-blocking] {m}"), seed, "hookblocking".into()));
         }
     }
